@@ -20,7 +20,7 @@ LEVEL = 'exploration'
 BUDGET = {'quick': 4000, 'thorough': 20000}
 RULE = ("Case = 2-6 blocks from {relay probe, Input, Counter, 2-state FSM (plain / chained self-event from "
         "its entry action / zero-length timer), Repeat(count=0), OutputFunc} with 0-3 outgoing events each "
-        "(forward, on_output, on_every_output, on_enter_S, on_exit_S, on_success; destination any block incl. "
+        "(forward, on_output, on_every_output, on_enter_S, on_exit_S, events sent by the FSM's exit actions, on_success; destination any block incl. "
         "itself; filter in {none, reject, pass, edit}; event type plain or EventCond(t, None) / "
         "EventCond(None, t)) and an external sequence of <=4 events (normal, unknown type, missing "
         "parameter) followed by one normal event to every block. Compared with the model: start-up "
@@ -44,7 +44,7 @@ TRIGGERS = {
     'relay': ['fwd'],
     'input': ['on_output'],
     'counter': ['on_output', 'on_every_output'],
-    'fsm': ['on_enter_a', 'on_enter_b', 'on_exit_a', 'on_exit_b', 'on_output'],
+    'fsm': ['on_enter_a', 'on_enter_b', 'on_exit_a', 'on_exit_b', 'on_output', 'exit_hook_a', 'exit_hook_b'],
     'repeat': [],
     'ofunc': ['on_success'],
 }
@@ -201,10 +201,14 @@ class Model:
             return new
         if kind == 'fsm':
             old = self.cur[i]
+            self.send_edges(i, 'exit_hook_' + old, FSM_OUT[old])    # the exit action (may send events)
             self.send_edges(i, 'on_exit_' + old, FSM_OUT[old])
             new = 'b' if old == 'a' else 'a'
             if new == 'b' and b['variant'] in ('chain', 'zero_timer'):
-                new = 'a'       # 'b' is an intermediate state: no events, no output
+                # 'b' is an intermediate state: no events, no output, but its exit action runs
+                # (the block is still handling the event)
+                self.send_edges(i, 'exit_hook_b', FSM_OUT['b'])
+                new = 'a'
             self.cur[i] = new
             if FSM_OUT[new] != FSM_OUT[old]:
                 self.send_edges(i, 'on_output', FSM_OUT[new], FSM_OUT[old])
@@ -303,6 +307,14 @@ def mkfsm(variant):
         ns['TIMERS'] = {'b': (0, 'go')}
     if variant == 'chain':
         ns['enter_b'] = lambda self: self.event('go')
+
+    def mkexit(state):
+        def exit_action(self):
+            for ev in getattr(self, 'x_exit_' + state):
+                ev.send(self, value=FSM_OUT[state])
+        return exit_action
+    ns['exit_a'] = mkexit('a')
+    ns['exit_b'] = mkexit('b')
     return type('F' + variant, (edzed.FSM,), ns)
 
 
@@ -354,7 +366,8 @@ def execute(case):
                 blk = mkfsm(b['variant'])(
                     name, on_output=evs('on_output', True),
                     on_enter_a=evs('on_enter_a'), on_enter_b=evs('on_enter_b'),
-                    on_exit_a=evs('on_exit_a'), on_exit_b=evs('on_exit_b'))
+                    on_exit_a=evs('on_exit_a'), on_exit_b=evs('on_exit_b'),
+                    x_exit_a=evs('exit_hook_a'), x_exit_b=evs('exit_hook_b'))
             elif kind == 'repeat':
                 blk = edzed.Repeat(name, dest=f"b{b['dest']}", etype=b['etype'], interval=5, count=0)
             else:
